@@ -41,6 +41,10 @@ func c06Gen(t *rapid.T) c06Plan {
 		p.Fail.DeployMs = 2500
 		scratch := m.clone()
 		p.During = vfGenOKCmd(t, scratch, vfGenCfg{Pause: false})
+		if p.Fail.Op == "rollout-deploy" && rapid.Bool().Draw(t, "same-slot") {
+			// the same slot of the same service is deployed successfully while the failing deploy still waits
+			p.During = vfCmd{Op: "rollout-deploy", Svc: p.Fail.Svc, Targets: vfPick(t, vfRolloutPool, 2, "rtarget")}
+		}
 		if p.During.Op == "remove" || p.During.Op == "pause" {
 			p.During = vfCmd{} // keep every service observable
 		}
@@ -182,6 +186,15 @@ func c06NormState(b []byte) string {
 	return strings.Join(parts, "\n")
 }
 
+// c06Full: everything observable plus the in-package view of every service's slots, options, pause state and split.
+func c06Full(w *vfWorld, r *Router, m *vfModel, statePath string) map[string]string {
+	out := c06Snapshot(w, r, m, statePath)
+	for k, v := range c11Internal(r) {
+		out[k] = v
+	}
+	return out
+}
+
 func c06Run(t *testing.T, p c06Plan) (res vfResult) {
 	vfBubble(t, func(w *vfWorld) {
 		vfSetupWorldTargets(w)
@@ -199,7 +212,7 @@ func c06Run(t *testing.T, p c06Plan) (res vfResult) {
 		}
 		synctest.Wait()
 		statePath := w.statePath("r")
-		before := c06Snapshot(w, r, m, statePath)
+		before := c06Full(w, r, m, statePath)
 		// targets named only by the failing command
 		used := map[string]bool{}
 		for _, s := range m.Svcs {
@@ -254,7 +267,7 @@ func c06Run(t *testing.T, p c06Plan) (res vfResult) {
 			for tn := range used {
 				usedMark[tn] = len(w.targets[tn].probeLog())
 			}
-			before = c06Snapshot(w, r, m, statePath) // what the overlapping command alone leaves
+			before = c06Full(w, r, m, statePath) // what the overlapping command alone leaves
 			<-pc.done
 			res.label("ok-command-during-failing-one")
 		} else {
@@ -275,7 +288,7 @@ func c06Run(t *testing.T, p c06Plan) (res vfResult) {
 		}
 		res.label("class:" + cls)
 		synctest.Wait()
-		after := c06Snapshot(w, r, m, statePath)
+		after := c06Full(w, r, m, statePath)
 		if d := vfDiffMaps(before, after); d != "" {
 			res.failf("changed:"+cls, "failed command %s (%s) changed observable state:\n%s", p.Fail, cls, d)
 			return
@@ -307,7 +320,7 @@ func c06Run(t *testing.T, p c06Plan) (res vfResult) {
 				return
 			}
 		}
-		final := c06Snapshot(w, r, m, statePath)
+		final := c06Full(w, r, m, statePath)
 		if d := vfDiffMaps(before, final); d != "" {
 			res.failf("changed-later:"+cls, "state drifted after failed command %s (%s):\n%s", p.Fail, cls, d)
 			return
